@@ -35,6 +35,17 @@ def taggedHash (sha256 : Bytes → Bytes) (c : Cache) (tag msg : Bytes) : Option
   | none => none
   | some pre => some (sha256 (pre ++ msg), c')
 
+/-- a history of tagged_hash calls `(tag, msg)` starting from the cache `c`: all digests and the final cache -/
+def taggedHistory (sha256 : Bytes → Bytes) : Cache → List (Bytes × Bytes) → Option (List Bytes × Cache)
+  | c, [] => some ([], c)
+  | c, (tag, msg) :: rest =>
+    match taggedHash sha256 c tag msg with
+    | none => none
+    | some (d, c) =>
+      match taggedHistory sha256 c rest with
+      | none => none
+      | some (ds, c) => some (d :: ds, c)
+
 def hashAux (sha256 : Bytes → Bytes) (c : Cache) (msg : Bytes) := taggedHash sha256 c Gen.schnorrTagAux msg
 def hashNonce (sha256 : Bytes → Bytes) (c : Cache) (msg : Bytes) := taggedHash sha256 c Gen.schnorrTagNonce msg
 def hashChallenge (sha256 : Bytes → Bytes) (c : Cache) (msg : Bytes) := taggedHash sha256 c Gen.schnorrTagChallenge msg
